@@ -1,9 +1,14 @@
 import Bolt.Driver.Meta
 import Bolt.Driver.FL
+import Bolt.Driver.Api
 open Bolt.Driver
 
 def main (args : List String) : IO UInt32 := do
   match args with
   | ["openmeta", path, os] => cmdOpenMeta path (parseNat os); return 0
   | ["fl"] => cmdFL; return 0
+  | ["api"] => cmdApi false; return 0
+  | ["api-verbose"] => cmdApi true; return 0
+  | ["decode", path, os] => cmdDecode path (parseNat os) false; return 0
+  | ["decode-verbose", path, os] => cmdDecode path (parseNat os) true; return 0
   | _ => IO.eprintln "usage: boltmodel <cmd> ..."; return 2
